@@ -1,5 +1,6 @@
 import Lean.Data.Json
 import D2P.Model.Output
+import D2P.Spec.Skeleton
 import D2P.Model.Iterators
 import D2P.Model.Lifecycle
 import D2P.Check.C01
@@ -91,6 +92,16 @@ def jNests (xs : List Nest) : Json := .arr (xs.map jNest).toArray
 
 def parts : List String := ["header", "footer", "body", "footnotes", "endnotes", "document"]
 
+/-- `_get_pars` through the structural machine `skeletonOf` -/
+def skeletonParts (o : Opts) (a : Archive) (files : List Rel) (numM : M NumTable) : List Rel → M (List Nest)
+  | [] => pure []
+  | r :: rs =>
+    (rootElement o a files r) >>= fun cr =>
+    (partRels a files r) >>= fun rels =>
+    numM >>= fun num =>
+    (skeletonOf cr.1.dup rels num cr.2) >>= fun dc =>
+    (skeletonParts o a files numM rs) >>= fun rest => pure (dc.root ++ rest)
+
 def handlePackage (j : Json) : Except String Json := do
   let a ← archiveOfJson j
   let o : Opts := { html := (j.getObjValAs? Bool "html").toOption.getD false, dup := (j.getObjValAs? Bool "dup").toOption.getD true }
@@ -105,6 +116,12 @@ def handlePackage (j : Json) : Except String Json := do
   let memo : List (String × M (List Nest)) := ["header", "officeDocument", "footer", "footnotes", "endnotes"].map fun t =>
     (t, files >>= fun fs => getParsF o a fs numM t)
   let g : ParsOf := fun t => match memo.find? (·.1 == t) with | some e => e.2 | none => getPars o a t
+  -- the structural machine (no text, no `html`) on the same merged trees
+  let memoA : List (String × M (List Nest)) := ["header", "officeDocument", "footer", "footnotes", "endnotes"].map fun t =>
+    (t, files >>= fun fs => skeletonParts o a fs numM (filesOfType fs [lit t]))
+  let gA : ParsOf := fun t => match memoA.find? (·.1 == t) with | some e => e.2 | none => .error .modelLimit
+  for p in parts do
+    if want.contains "skel" then out := out ++ [(p ++ "_skel", jM jNests (viewParsFrom gA p))]
   for p in parts do
     if want.contains "pars" then out := out ++ [(p ++ "_pars", jM jNests (viewParsFrom g p))]
     if want.contains "runs" then out := out ++ [(p ++ "_runs", jM jTrees (viewRunsFrom g p))]
